@@ -34,6 +34,7 @@ STDLIB_CONFIGS = [
 ]
 AUDIT_MOD = 7
 MAX_STORED_PER_SIG = 4
+from ..modelops import UNION_IDS as modelops_ids, UNION_VIAS as modelops_vias  # noqa: E402
 UNKNOWN_NAME_SET = {n for _, n in wiregen.UNKNOWN_NAMES} | set(wiregen.RESERVED_NAMES)
 
 ROOT = "chuk_mcp.protocol.messages.roots.send_messages:Root"
@@ -468,11 +469,16 @@ def run(tier: str, only=None) -> core.Result:
     pr_meta: Dict[str, List[Dict[str, Any]]] = {}
     pr_join = None
     if not only or "models" in only:
-        pr_meta = {"methods": probes.methods_cases(mcases), "eq": probes.eq_cases(mcases), "helper": probes.helper_cases()}
+        pr_meta = {"methods": probes.methods_cases(mcases), "eq": probes.eq_cases(mcases), "helper": probes.helper_cases(),
+                   "shared": probes.shared_cases(mcases)}
         pr_groups = {"methods": [{"op": "methods", "target": c["target"], "wire": enc(c["wire"])} for c in pr_meta["methods"]],
                      "eq": [{"op": "eqprobe", "target": c["target"], "a": enc(c["a"]), "b": enc(c["b"])} for c in pr_meta["eq"]],
-                     "helper": [{"op": "helper", "helper": c["helper"], "seq": c["seq"]} for c in pr_meta["helper"]]}
+                     "helper": [{"op": "helper", "helper": c["helper"], "seq": c["seq"]} for c in pr_meta["helper"]],
+                     "shared": [{"op": "shared", "target": c["target"], "wire": enc(c["wire"])} for c in pr_meta["shared"]]}
         pr_join = probes.start(HANDLER, CONFIGS, pr_groups, n_each=3)
+        # id sequences are forked from workers of their own that never validate anything themselves
+        us_meta = probes.unionseq_cases()
+        us_join = probes.start(HANDLER, CONFIGS, {"unionseq": [{"op": "unionseq", "calls": c["calls"]} for c in us_meta]}, n_each=2)
     extra_box: Dict[str, Any] = {}
 
     def run_extra():
@@ -733,6 +739,62 @@ def run(tier: str, only=None) -> core.Result:
                           f"properties of the object its dump differs at '{ch['path']}' ({ch['via']}) under {side} only; first call that "
                           f"does it: {who}",
                           {"part": "probe", "probe": "methods", "case": {"op": "methods", "target": c["target"], "wire": enc(c["wire"])}})
+            pr_info["shared_instance_objects"] = 0
+            for i, c in enumerate(pr_meta["shared"]):
+                ap, af = pr_ans["shared"]["pydantic"][i], pr_ans["shared"]["fallback"][i]
+                if not (ap.get("ok") and af.get("ok")) or wiregen.is_config_class(wiregen.resolve(c["target"])):
+                    continue
+                pr_info["shared_instance_objects"] += 1
+                if workers.line(ap.get("problem")) != workers.line(af.get("problem")):
+                    side = "fallback" if af.get("problem") else "pydantic"
+                    pb = af.get("problem") or ap.get("problem")
+                    pr_info["disagreements"] += 1
+                    store({"class": "shared-instance-dump-differs", "backend": side, "model": wiregen.short(c["target"]),
+                           "how": pb.get("kind"), "exception": pb.get("exc")},
+                          f"{wiregen.short(c['target'])} <- {json.dumps(c['wire'], ensure_ascii=True)[:200]}: with one model instance at two "
+                          f"positions of the (non-cyclic) object, {pb.get('via')} under {side}: {pb}",
+                          {"part": "probe", "probe": "shared", "case": {"op": "shared", "target": c["target"], "wire": enc(c["wire"])}})
+            try:
+                us_ans, us_aud, _ = us_join()
+            except RuntimeError as e:
+                res.harness_errors.append(str(e))
+                us_ans = None
+            if us_ans is not None:
+                for n_, g_, a_ in us_aud:
+                    pr_audit["reasked"] += a_["reasked"]
+                    if a_["mismatches"]:
+                        res.harness_errors.append(f"nondeterministic id-sequence answer of the {n_} worker")
+                refs: Dict[str, Dict[Tuple[int, int], Any]] = {}
+                for n_ in us_ans["unionseq"]:
+                    refs[n_] = {tuple(c["calls"][0]): a[0] for c, a in zip(us_meta, us_ans["unionseq"][n_]) if c["reference"]}
+                pr_info["id_sequences"] = 0
+                for key_, rp in refs["pydantic"].items():
+                    rf = refs["fallback"].get(key_)
+                    idv = modelops_ids[key_[1]]
+                    if isinstance(idv, bool) or (isinstance(idv, float) and not idv.is_integer()):
+                        continue            # not an id JSON-RPC allows (a string or a number without fraction): history-independence only
+                    if rp.get("ok") and workers.line(rp) != workers.line(rf):
+                        pr_info["disagreements"] += 1
+                        store({"class": "id-handling-differs", "via": modelops_vias[key_[0]], "id": repr(modelops_ids[key_[1]])},
+                              f"{probes.describe_union_call(list(key_))} as the first call of a fresh process: Pydantic {rp}, fallback {rf}",
+                              {"part": "probe", "probe": "unionseq", "case": {"op": "unionseq", "calls": [list(key_)]}})
+                for n_ in us_ans["unionseq"]:
+                    for c, a in zip(us_meta, us_ans["unionseq"][n_]):
+                        if c["reference"]:
+                            continue
+                        pr_info["id_sequences"] += 1
+                        want = refs[n_].get(tuple(c["calls"][1]))
+                        got = a[1] if len(a) > 1 else a[0]
+                        if workers.line(want) != workers.line(got):
+                            pr_info["disagreements"] += 1
+                            store({"class": "id-handling-depends-on-earlier-validation", "backend": n_,
+                                   "via": modelops_vias[c["calls"][1][0]], "id": repr(modelops_ids[c["calls"][1][1]]),
+                                   "after_id_type": type(modelops_ids[c["calls"][0][1]]).__name__},
+                                  f"under {n_}: {probes.describe_union_call(c['calls'][1])} answers {got} after "
+                                  f"{probes.describe_union_call(c['calls'][0])} in the same process; made first in a fresh process it "
+                                  f"answers {want}",
+                                  {"part": "probe", "probe": "unionseq", "case": {"op": "unionseq", "calls": c["calls"]},
+                                   "reference": {"op": "unionseq", "calls": [c["calls"][1]]}, "backend": n_})
             for i, c in enumerate(pr_meta["helper"]):
                 ap, af = pr_ans["helper"]["pydantic"][i], pr_ans["helper"]["fallback"][i]
                 pr_info["helper_sequences"] += 1
@@ -884,6 +946,7 @@ def run(tier: str, only=None) -> core.Result:
         "four configurations answer every case: {Pydantic, fallback} with orjson importable (the primary comparison) and with orjson masked; integers outside [-2^63, 2^64-1] are in the id, integer-member and free-form positions; nesting deeper than Pydantic's own serialiser follows and lone surrogates are outside the alphabet (Pydantic itself refuses to serialise them)",
         "two numbers are the same JSON value when numerically equal (1 and 1.0); members named id are compared with their JSON type",
         "transport parameter classes (chuk_mcp.transports.*: local configuration, never on the wire; their validators are pydantic decorators) are driven and compared, but their disagreements are listed under unjudged_config_class_disagreements instead of being reported",
+        "id sequences: every ordered pair of id validations (4 entry points x ids 'abc', '7', 5, 3.0, 3.5, -0.0, 1e3, True, False) runs in a process forked for it; the second answer must equal the answer of the same call made first in a fresh process under each backend; across backends only ids JSON-RPC allows (strings, integers, integral floats) are compared",
         "object probes: ==, !=, membership, list.index and hash of two objects of one class (equal / one member different / only an unknown member different) must behave the same under both backends; calling every public zero-argument method and property (discovered with dir()) must not change the dump under one backend only; every *Manager / *Registry class found under chuk_mcp.protocol is driven through all operation sequences up to length 3 and its wire output compared",
         "input mutated after validation: the wire object is edited in place at every dict/list position down to depth 2 (replace a scalar, delete a key/item, add a key/append, clear); both backends share the caller's objects inside free-form values (Any, the values of Dict[str, Any], unknown members), so C09 only demands that the built object reacts the same way under both",
         "agreement of attribute values that do not show in the class of a nested object or in the dump is not judged",
@@ -906,6 +969,14 @@ def replay_case(args: Dict[str, Any]) -> Dict[str, Any]:
     wiregen.discover()
     if args.get("part") == "probe":
         ans = {cfg["name"]: workers.fresh_sequence(cfg, HANDLER, [args["case"]])[0] for cfg in CONFIGS}
+        if args["probe"] == "unionseq" and args.get("reference"):
+            cfg = [c_ for c_ in CONFIGS if c_["name"] == args["backend"]][0]
+            ref = workers.fresh_sequence(cfg, HANDLER, [args["reference"]])[0]
+            got = ans[args["backend"]]
+            same = workers.line(ref[0]) == workers.line(got[-1])
+            return {"probe": "unionseq", "in_sequence": got, "alone": ref,
+                    "violations": [] if same else [{"sig": {"class": "id-handling-depends-on-earlier-validation", "backend": args["backend"]},
+                                                    "msg": f"{got[-1]} vs alone {ref[0]}"}]}
         key_ = (lambda a: bool(a.get("changed"))) if args["probe"] == "methods" else workers.line
         same = key_(ans["pydantic"]) == key_(ans["fallback"])
         return {"probe": args["probe"], "answers": ans,
